@@ -28,6 +28,10 @@ def gen_case(rng, tier):
         n = rng.randint(300, 650)          # more than a trading year under water
     days = bdays(BASE + rng.randint(0, 400), n, rng, gap=rng.choice([0.0, 0.0, 0.1]))
     shape = 'slump' if slump else rng.choice(['walk', 'walk', 'up', 'down', 'peakfirst', 'flat', 'vee'])
+    dust = (not moments) and (not slump) and n >= 30 and rng.random() < 0.08
+    if dust:
+        shape = 'dust'
+        dust_len = rng.randint(6, 15)
     if moments:
         e = float(rng.randint(4000, 4000000)) / 4
         step = lambda x: max(1.0, x + rng.randint(-40000, 40000) / 4)
@@ -50,6 +54,21 @@ def gen_case(rng, tier):
                 e = e * 0.985
             else:
                 e = min(eq[9] * 0.97, e * (1 + rng.uniform(-0.002, 0.004)))
+        elif shape == 'dust':
+            # a large account on its peak paying a few units of custody charge a day (a long, extremely shallow under-water
+            # run, relative depth ~1e-9), later a deeper but shorter dip
+            if i == 1:
+                e = 5e8
+            elif i < 4:
+                e = e * 1.01
+            elif i < 4 + dust_len:
+                e = e - rng.randint(1, 4)
+            elif i == 4 + dust_len:
+                e = e * 1.02
+            elif i in (8 + dust_len, 9 + dust_len):
+                e = e * 0.99
+            else:
+                e = e * 1.015
         elif shape == 'flat':
             e = e if rng.random() < 0.7 else step(e)
         elif shape == 'vee':
